@@ -84,6 +84,27 @@ def Node.height {O : Type} : Node O → Nat
 termination_by n => sizeOf n
 decreasing_by subst h; have := Entry.sizeOf_child_lt ‹_›; simp_wf; omega
 
+/-- diagnosis only (the verdict itself is `wfNode`): the first clause of `wfNode` that fails -/
+def wfDiag {O : Type} [Bounded O] (maxC : Nat) : Nat → Node O → Option String
+  | h, .mk leaf level es =>
+    if level != h then some s!"stored-level={level}-but-height-above-leaves={h}"
+    else if leaf != (h == 1) then some s!"leaf-flag={leaf}-at-height={h}"
+    else if h == 0 then some "child-entry-below-leaf-depth(leaves-not-all-at-Depth)"
+    else if es.length > maxC then some s!"fan-out={es.length}>Max"
+    else (es.attach.filterMap fun ⟨e, he⟩ =>
+      match hm : e with
+      | .obj b o =>
+        if h != 1 then some s!"object-entry-{h - 1}-levels-above-leaf-depth(leaves-not-all-at-Depth)"
+        else if b != Bounded.bounds o then some "leaf-entry-box-differs-from-object-box" else none
+      | .child b c =>
+        if h ≤ 1 then some "child-entry-at-leaf-depth(leaves-not-all-at-Depth)"
+        else match wfDiag maxC (h - 1) c with
+          | some m => some m
+          | none => if !isEnvelope b (c.objs.map Bounded.bounds) then
+              some s!"entry-box-({boxStr b})-is-not-the-exact-envelope-of-its-subtree" else none).head?
+termination_by _ n => sizeOf n
+decreasing_by subst hm; have := Entry.sizeOf_child_lt he; simp_wf; omega
+
 structure Hist where
   cls : String
   minC : Nat
